@@ -278,6 +278,11 @@ func checkC08(a *checkArgs, r *Result) error {
 		cases = append(cases, w2Case{Op: "writer2-history", Name: fmt.Sprintf("corpus/opsfit filler=%d", f), LC: 3, PB: 2, DictCap: 8 << 20, BufSize: 4096,
 			Opsfit: f, Hist: []w2Op{{"write", "@opsfit"}, {"close", ""}}})
 	}
+	for i := 0; i < 4; i++ {
+		d := genBarely(rng, 140000+rng.Intn(60000))
+		cases = append(cases, w2Case{Op: "writer2-history", Name: fmt.Sprintf("barely/w%d C", len(d)), LC: 3, PB: 2, DictCap: []int{1 << 20, 65536}[i%2], BufSize: 4096,
+			Hist: []w2Op{{"write", hxe(d)}, {"close", ""}}})
+	}
 	for i := 0; i < big; i++ {
 		d := genLowEntropy(rng, 2200000+rng.Intn(200000))
 		cases = append(cases, w2Case{Op: "writer2-history", Name: fmt.Sprintf("big/w%d F w100 C", len(d)), LC: 3, PB: 2, DictCap: 1 << 20, BufSize: 4096,
